@@ -409,6 +409,10 @@ class World:
             cname = con.match_case(env)
             if cname is None:
                 raise Unsupported("call of %s with arguments outside its declared type cases: %r" % (con.qualname, {k: v for k, v in env.items() if k not in ("cls", "self")}))
+        fr.case_name = cname
+        if cname is None and getattr(con, "result_by_case", None):
+            cname = con.match_case(env)
+            fr.case_name = cname
         returns = con.returns_for(cname)
         raises_ = con.raises_for(cname)
         for g, d in con.ghost.items():
@@ -469,6 +473,9 @@ class World:
 
     def contract_result(self, ex, con, fr):
         r = con.result
+        cn = getattr(fr, "case_name", None)
+        if cn is not None and cn in getattr(con, "result_by_case", {}):
+            r = con.result_by_case[cn]
         if r is None:
             return VObj(ex.fresh("res_" + con.qualname.split(".")[-1], V))
         if isinstance(r, C.Desc):
@@ -943,6 +950,9 @@ class World:
         if isinstance(obj, VSeq):
             return self.seq_method(ex, obj, name, node)
         if isinstance(obj, VTup):
+            if name in ("sign", "digits", "exponent") and len(obj.items) == 3:
+                # DecimalTuple fields
+                return obj.items[("sign", "digits", "exponent").index(name)]
             if name in ("index", "count"):
                 raise Unsupported("tuple.%s" % name)
             return self.seq_method(ex, self.ext.as_seq(ex, obj), name, node)
@@ -1312,6 +1322,11 @@ class World:
         ib, ia = as_int_term(before), as_int_term(after)
         if ib is not None and ia is not None:
             return z3.And(ib >= 0, ia < ib)
+        if isinstance(before, VFloat) and isinstance(after, VFloat):
+            # strictly decreasing, non-negative, finite binary64 values: a finite carrier, hence well-founded
+            zero = z3.FPVal(0.0, F64)
+            return z3.And(z3.Not(sym.fp_is_special(before.t)), z3.Not(sym.fp_is_special(after.t)),
+                          z3.fpGEQ(after.t, zero), z3.fpLT(after.t, before.t))
         raise Unsupported("variant of kind %r" % (before,))
 
     # ------------------------------------------------------------ construction
@@ -1335,6 +1350,25 @@ class World:
             it = as_int_term(args[0]) if args else z3.IntVal(0)
             if it is not None:
                 return VInt(it)
+            if isinstance(args[0], VFloat):
+                c = z3.simplify(args[0].t)
+                if z3.is_fp_value(c) and not (c.isNaN() or c.isInf()):
+                    import struct
+                    bits = z3.simplify(z3.fpToIEEEBV(c)).as_long()
+                    return VInt(int(struct.unpack("<d", struct.pack("<Q", bits))[0]))
+        if py is float and len(args) == 1:
+            a0 = args[0]
+            if isinstance(a0, VFloat):
+                return a0
+            if isinstance(a0, VStr) and a0.const() is not None:
+                try:
+                    return VFloat(float(a0.const()))
+                except ValueError:
+                    ex.throw("ValueError", node, origin="float(str)")
+            it0 = as_int_term(a0)
+            if it0 is not None:
+                from .externals import int_to_fp
+                return VFloat(int_to_fp(it0))
         if py is dict:
             if not args and not kwargs:
                 return self.ext.new_map(ex)
